@@ -253,10 +253,12 @@ def gen_harness_files():
     os.makedirs(os.path.join(hd, ".cargo"), exist_ok=True)
     write_if_changed(os.path.join(hd, ".cargo", "config.toml"),
                      "[net]\noffline = true\n[build]\ntarget-dir = \"%s\"\n" % TARGET)
-    mods = sorted(f[:-3] for f in os.listdir(os.path.join(hd, "src")) if re.match(r"c\d\d\.rs$", f))
+    allrs = sorted(f[:-3] for f in os.listdir(os.path.join(hd, "src"))
+                   if f.endswith(".rs") and f not in ("main.rs", "mods.rs"))
+    mods = [m for m in allrs if re.match(r"c\d\d$", m)]
     body = "// generated by tools/vlib.py gen_harness_files — do not edit\n"
-    for m in mods:
-        body += "mod %s;\n" % m
+    for m in allrs:
+        body += "#[allow(dead_code)]\npub mod %s;\n" % m
     body += "pub fn dispatch(kind: u32, v: &crate::val::Val) -> crate::val::Val {\n"
     for m in mods:
         body += "    if let Some(r) = %s::dispatch(kind, v) { return r; }\n" % m
